@@ -16,6 +16,7 @@ LATEST_VERSION = 1
 
 # The max integer value in SQLite is signed 8 Bytes / 64 bits
 MAX_TIMESTAMP = 2**63 - 1
+MIN_TIMESTAMP = -(2**63)
 
 CREATE_BUCKETS_TABLE = """
     CREATE TABLE IF NOT EXISTS buckets (
@@ -355,7 +356,7 @@ class SqliteStorage(AbstractStorage):
             limit = -1
         self.commit()
         c = self.conn.cursor()
-        starttime_i = starttime.timestamp() * 1000000 if starttime else 0
+        starttime_i = starttime.timestamp() * 1000000 if starttime else MIN_TIMESTAMP
         endtime_i = endtime.timestamp() * 1000000 if endtime else MAX_TIMESTAMP
         query = """
             SELECT id, starttime, endtime, datastr
@@ -376,7 +377,7 @@ class SqliteStorage(AbstractStorage):
     ):
         self.commit()
         c = self.conn.cursor()
-        starttime_i = starttime.timestamp() * 1000000 if starttime else 0
+        starttime_i = starttime.timestamp() * 1000000 if starttime else MIN_TIMESTAMP
         endtime_i = endtime.timestamp() * 1000000 if endtime else MAX_TIMESTAMP
         query = (
             "SELECT count(*) "
